@@ -32,7 +32,22 @@ def infer_family(pid, tier, chk=None):
     return chk
 
 
-RUNNERS = {}
+def closure_family(chk, tier):
+    """C05: every similarity graph (MC_Closure) replayed through a table-driven comparator."""
+    nm = 5 if tier == "quick" else 6
+    beh = DR.mc_closure(chk, nm, emit=True)
+    chk.exhaustive_parts.append("MC_Closure: all %d symmetric relations on %d models (safety + termination); "
+                                "each replayed on the real merge_models" % (len(beh), nm))
+    if tier == "quick":
+        beh = beh[::2]
+    traces, inputs = DR.registry_traces(chk.pid, chk, DR.closure_cases(beh, nm))
+    chk.rules.append("%d similarity tables replayed through TableCmp" % len(beh))
+    chk.validate("Trace_Registry", traces, inputs, shard=40)
+    bc = DR.boundary_cases(tier == "quick")
+    traces, inputs = DR.registry_traces(chk.pid, chk, bc)
+    chk.rules.append("%d comparator boundary cases (|a&b|, |a|b| <= 10) x 8 policies" % len(bc))
+    chk.validate("Trace_Registry", traces, inputs, shard=40)
+
 
 
 
@@ -68,6 +83,7 @@ def run(pid, tier, replay=None):
         registry_family(pid, tier, chk)
         return chk.finish()
     if pid == "C05":
+        closure_family(chk, tier)
         registry_family(pid, tier, chk)
         return chk.finish()
     raise tlc.MachineryError("no check for %s" % pid)
